@@ -318,7 +318,7 @@ def plan(prop, tier, seed, find):
                     nontrivial=("decided sub-case in which the cut-off interrupted the run on some path", lambda r: r["notes"].get("interrupted", 0) > 0))
     if prop == "C14":
         parw = _par_bundles(tier, seed, "C14", ["warm"], variants=[dict(threads=1, preempt=0, cache=0, fringe="simple"), dict(threads=1, preempt=0, cache=1, fringe="nodup"), dict(threads=2, preempt=1, cache=1, fringe="simple")], nseeds=(1 if tier == "quick" else 6))
-        return dict(engine="symx", bundles=_solve_bundles(tier, seed, find, "C14", ["warm"]) + parw, prefixes=["C14:"], vacuity=dict(merge=1), functions=FUNCS_SOLVE, bounds=bound_solve + "; primal = value and decisions of an enumerated feasible path (index seeded)",
+        return dict(engine="symx", bundles=_solve_bundles(tier, seed, find, "C14", ["warm"]) + parw + _par_deep(tier, seed, "C14", "warm"), prefixes=["C14:"], vacuity=dict(merge=1), functions=FUNCS_SOLVE, bounds=bound_solve + "; primal = value and decisions of an enumerated feasible path (index seeded)",
                     nontrivial=("decided sub-case with >= 2 explored paths", lambda r: r["paths"] >= 2))
     if prop == "C09":
         fams = [dict(n=3, b=2, d=2, setnext=1, nsym=6), dict(n=4, b=2, d=2, setnext=1, nsym=6), dict(n=4, b=2, d=2, setnext=0, nsym=7), dict(n=3, b=3, d=2, setnext=1, nsym=5, depth_free=1)]
